@@ -3,6 +3,7 @@ CONSTANTS
   Impl = "intended"
   Walk = "arbitrary"
   Slices <- TinySlices
+  QuantsOf <- TierQuants
 SPECIFICATION Spec
 INVARIANTS TypeOK Faithful SelfConsistent
 PROPERTIES Determinism
